@@ -41,8 +41,17 @@ func c16Program(origin int64, hasOrg bool, filler string, branches []string, res
 	fields = append(fields, absField{"DW $", 4, 0, 2})
 	sb.WriteString(sentinelLine(5) + "\tMOV SI,start\n")
 	fields = append(fields, absField{"MOV SI,start", 5, 1, 2})
+	// a $-derived immediate stored into sized memory, and a label as memory address through ModR/M and moffs
+	sb.WriteString(sentinelLine(8) + "\tMOV WORD [0x0ff0],$\n")
+	fields = append(fields, absField{"MOV WORD [0x0ff0],$", 8, 4, 2})
+	sb.WriteString(sentinelLine(9) + "\tMOV BX,[start]\n")
+	fields = append(fields, absField{"MOV BX,[start]", 9, 2, 2})
+	sb.WriteString(sentinelLine(10) + "\tCMP BYTE [start],0\n")
+	fields = append(fields, absField{"CMP BYTE [start],0", 10, 2, 2})
+	sb.WriteString(sentinelLine(11) + "\tMOV AX,[start]\n")
+	fields = append(fields, absField{"MOV AX,[start]", 11, 1, 2})
 	if resbDollar {
-		sb.WriteString(fmt.Sprintf("\tRESB 0x%x-$\n", origin+0x90))
+		sb.WriteString(fmt.Sprintf("\tRESB 0x%x-$\n", origin+0xd0))
 	}
 	noLabelBranch := len(branches) == 1 && branches[0] == "JMP $"
 	if noLabelBranch { // a program without any label-target branch: only $-derived targets
@@ -68,7 +77,7 @@ func c16Scenario(tier string) *core.Scenario {
 	}
 	return &core.Scenario{
 		Name: "org_pairs", Bound: -1,
-		Rule:   "16-bit programs (label branches, label immediates, DW/DD of labels, $, RESB x-$) x all ordered pairs of 7 ORG settings (incl. no ORG); out_B must equal out_A with delta added at exactly the absolute fields; non-trivial = the two origins differ and both programs assembled",
+		Rule:   "16-bit programs (label branches, label immediates, DW/DD of labels, $, a $-derived immediate into sized memory, a label as memory address, RESB x-$) x all ordered pairs of 7 ORG settings (incl. no ORG); out_B must equal out_A with delta added at exactly the absolute fields; non-trivial = the two origins differ and both programs assembled",
 		Bounds: map[string]any{"origins": []string{"none", "0", "0x100", "0x7c00", "0xc200", "0x8000", "0xfff0"}, "fillers": fillers, "branch_sets": len(branchSets)},
 		Build: func(c *core.Chooser) *core.Case {
 			fl := fillers[c.Pick("filler", len(fillers))]
